@@ -394,6 +394,9 @@ pub struct PProfile {
     pub hold_close_pct: u64,
     /// % of lookups during whose hold the same client calls max_cost()/update_max_cost()
     pub hold_umc_pct: u64,
+    /// % of lookups during whose hold the same client calls insert_if_present / get_ttl on a key of
+    /// ANOTHER shard (transparent keys only): legal, since only that other shard is locked
+    pub hold_other_pct: u64,
 }
 
 impl Default for PProfile {
@@ -437,6 +440,7 @@ impl Default for PProfile {
             metrics_reset_pct: 0,
             hold_close_pct: 0,
             hold_umc_pct: 0,
+            hold_other_pct: 0,
         }
     }
 }
@@ -457,7 +461,7 @@ fn profile_for_quick(prop: &str) -> PProfile {
     let d = PProfile::default();
     match prop {
         "C01" => PProfile { over_capacity_pct: 85, chaos_umc_pct: 50, chaos_clear_pct: 10, if_present_pct: 12, collide_pct: 5, vstall_pct: 15, hold_umc_pct: 6, ..d },
-        "C02" => PProfile { keys: (1, 5), get_mut_write: true, chaos_clear_pct: 25, collide_pct: 30, lookup_pct: 35, validator_pct: 15, wait_pct: 12, ..d },
+        "C02" => PProfile { hold_other_pct: 5, keys: (1, 5), get_mut_write: true, chaos_clear_pct: 25, collide_pct: 30, lookup_pct: 35, validator_pct: 15, wait_pct: 12, ..d },
         "C06" => PProfile { chaos_clear_pct: 30, over_capacity_pct: 60, ttl_pct: 35, small_buffer_pct: 25, vstall_pct: 20, metrics_reset_pct: 12, ..d },
         "C07" => PProfile { clients: (1, 3), keys: (4, 16), over_capacity_pct: 100, lookup_pct: 50, ttl_pct: 5, remove_pct: 5, chaos_umc_pct: 20, ops: (10, 40), collide_pct: 0, exit_only_cb_pct: 10, ..d },
         "C08" => PProfile { chaos_clear_pct: 15, chaos_close_pct: 20, over_capacity_pct: 60, exit_only_cb_pct: 20, ttl_pct: 30, vstall_pct: 20, ..d },
@@ -468,7 +472,7 @@ fn profile_for_quick(prop: &str) -> PProfile {
         "C15" => PProfile { lookup_pct: 75, keys: (1, 8), wide_config: true, metrics_on: true, ops: (8, 40), remove_pct: 3, chaos_close_pct: 15, ..d },
         "C17" => PProfile { metrics_on: true, inline_clear_pct: 10, over_capacity_pct: 60, small_buffer_pct: 30, ..d },
         "C18" => PProfile { collide_pct: 100, keys: (2, 6), get_mut_write: true, ttl_pct: 50, get_ttl_tenths: 4, lookup_pct: 40, ..d },
-        "C20" => PProfile { wide_config: true, ops: (3, 14), metrics_on: false, over_capacity_pct: 50, ..d },
+        "C20" => PProfile { hold_other_pct: 5, wide_config: true, ops: (3, 14), metrics_on: false, over_capacity_pct: 50, ..d },
         _ => d,
     }
 }
@@ -613,6 +617,13 @@ pub fn gen_p_family(prop: &str, seed: u64, pf: &PProfile) -> Plan {
                         script.push(Op::WhileHolding { what: 0, v: 0 });
                     } else if rng.chance(pf.hold_umc_pct, 100) {
                         script.push(Op::WhileHolding { what: 1 + rng.below(2) as u8, v: (cfg.max_cost / 2 + rng.range(1, 60) as i64).max(1) });
+                    } else if pf.hold_other_pct > 0 && matches!(cfg.keys, KeyMode::Transparent) && rng.chance(pf.hold_other_pct, 100) {
+                        // (shard = index % 256, index = key for transparent keys)
+                        let others: Vec<u64> = universe.iter().copied().filter(|o| o % 256 != k % 256).collect();
+                        if !others.is_empty() {
+                            let k2 = *rng.pick(&others);
+                            script.push(Op::WhileHolding { what: 3 + rng.below(2) as u8, v: k2 as i64 });
+                        }
                     }
                     script.push(match if rng.below(10) < pf.get_ttl_tenths { 7 } else if pf.get_mut_heavy && rng.chance(1, 2) { 9 } else { rng.below(10) } {
                         0..=6 => Op::Get { k, hold: if rng.chance(1, 6) { rng.range(1, 5) as u32 } else { 0 } },
@@ -1460,6 +1471,17 @@ pub fn gen_plan(prop: &str, seed: u64, variant: u64) -> Plan {
         2 => 3,
         _ => 0,
     };
+    // a close() whose future is dropped at an await (timeout, select!), then close() again: the
+    // retry must still stop the workers
+    if prop == "C12" && p.cfg.flavor == Flavor::Async && variant % 5 == 3 && !matches!(p.cfg.keys, KeyMode::Typed { .. }) && p.finale != Finale::DropAll {
+        let mut r = Rng::new(seed ^ 0xc105e);
+        let c0 = &mut p.clients[0];
+        c0.push(Op::CancelNext { after: r.below(3) as u32 });
+        c0.push(Op::Close);
+        c0.push(Op::Close);
+        c0.push(Op::Barrier);
+        p.tags.push("cancelled_close_then_retry".into());
+    }
     // the builder recipe (constructor, order of setters) varies with the run
     if !matches!(p.cfg.keys, KeyMode::Typed { .. }) {
         p.cfg.recipe = ((variant / 3) % 8) as u8;
@@ -1543,7 +1565,7 @@ fn gen_plan_inner(prop: &str, seed: u64, variant: u64) -> Plan {
         "C05" if variant % 8 == 2 => gen_p_family(prop, seed, &PProfile { clients: (2, 3), keys: (1, 2), ops: (8, 26), over_capacity_pct: 0, collide_pct: 0, ttl_pct: 55, ttl_narrow: true, remove_pct: 6, if_present_pct: 5, lookup_pct: 10, wait_pct: 2, sleeps: false, faulty_pct: 60, barrier_every: (3, 10), settle: true, ..PProfile::default() }),
         "C05" if variant % 4 == 2 => gen_p_family(prop, seed, &PProfile { over_capacity_pct: 20, collide_pct: 5, ttl_pct: 70, remove_pct: 8, lookup_pct: 25, faulty_pct: 0, vstall_pct: 35, settle: true, ..PProfile::default() }),
         "C05" => gen_ttl_family(prop, seed, variant % 2 == 1),
-        "C09" if variant % 4 == 2 => gen_p_family(prop, seed, &PProfile { clients: (2, 4), keys: (1, 3), validator_pct: 100, if_present_pct: 25, lookup_pct: 15, remove_pct: 8, over_capacity_pct: 20, collide_pct: 0, ttl_pct: 25, ops: (6, 24), ..PProfile::default() }),
+        "C09" if variant % 4 == 2 => gen_p_family(prop, seed, &PProfile { hold_other_pct: 8, clients: (2, 4), keys: (2, 4), validator_pct: 100, if_present_pct: 25, lookup_pct: 15, remove_pct: 8, over_capacity_pct: 20, collide_pct: 0, ttl_pct: 25, ops: (6, 24), ..PProfile::default() }),
         "C09" => gen_ttl_family_c(prop, seed, variant % 5 == 4, true),
         "C19" => gen_diff(seed, variant),
         // overlapping writes of few keys, Coster-valued: insert followed at once by insert_if_present
